@@ -63,6 +63,11 @@ MUTANTS = [
     ("string-map-nary-one-past-shortest", "lib/chibi/string.sld", "                         (string-cursor>=? i (string-cursor-end str)))", "                         (string-cursor>? i (string-cursor-end str)))"),
     ("string-copy!-backward-off-by-one", "lib/scheme/extras.scm", "            ((< j start))\n          (string-set! to i (string-ref from j))))))", "            ((<= j start))\n          (string-set! to i (string-ref from j))))))"),
     ("string-ci-core-folds-bytes-above-7f", "eval.c", "      diff = tolower((unsigned char)sexp_string_data(str1)[i])\n        - tolower((unsigned char)sexp_string_data(str2)[i]);", "      diff = (((unsigned char)sexp_string_data(str1)[i]) | 0x20)\n        - (((unsigned char)sexp_string_data(str2)[i]) | 0x20);"),
+    # round 5: the two halves of "string-ref and string-set! must not trust a UTF-8 lead byte cut off by the end of the string"
+    ("undo-fix-ref-trusts-cut-off-lead", "sexp.c", "  else if (sexp_utf8_initial_byte_count(*p) > (sexp_sint_t)sexp_string_size(str) - sexp_unbox_string_cursor(i))\n    return sexp_user_exception(ctx, NULL, \"string-ref: truncated utf8 sequence\", i);\n", ""),
+    ("undo-fix-set-unclamped-old-len", "eval.c", "  if (old_len > (int)sexp_string_size(str) - i)  /* a lead byte cut off by the end of the string */\n    old_len = (int)sexp_string_size(str) - i;\n", ""),
+    ("set-clamp-off-by-one", "eval.c", "  if (old_len > (int)sexp_string_size(str) - i)  /* a lead byte cut off by the end of the string */\n    old_len = (int)sexp_string_size(str) - i;\n",
+     "  if (old_len > (int)sexp_string_size(str) - i)  /* a lead byte cut off by the end of the string */\n    old_len = (int)sexp_string_size(str) - i - 1;\n"),
     ("concat-length", "sexp.c", "    len = sexp_string_size(sexp_car(ls));\n    memcpy(p, sexp_string_data(sexp_car(ls)), len);", "    len = sexp_string_length(sexp_car(ls));\n    memcpy(p, sexp_string_data(sexp_car(ls)), len);"),
 ]
 
